@@ -626,7 +626,9 @@ class FeatureIntervalCollection(AbstractFeatureIntervalCollection):
         for tx in self.feature_intervals:
             for i in tx.chromosome_location.blocks:
                 intervals.append(i)
-        merged = reduce(lambda x, y: x.union(y), intervals)
+        # the merged feature takes the strand of this collection; children may lie on either strand
+        strand = self.chunk_relative_location.strand
+        merged = reduce(lambda x, y: x.union(y), (i.reset_strand(strand) for i in intervals))
         interval_starts = [x.start for x in merged.blocks]
         interval_ends = [x.end for x in merged.blocks]
 
